@@ -23,6 +23,7 @@ EXPLANATION = (
     "(4) every get_cursor_coords implementation tests the child's answer against None before unpacking it; (6) NOOP: no geometry update adds a variable that was just reset to 0 (offset bookkeeping statements in the wrong order - e.g. ListBox's offset_rows, from which "
     "get_cursor_coords answers); (7) POSBOUND: hit-test bounds compare a coordinate with an extent half-open (`row >= maxrow - bottom`, never `>`); (5) every GridFlow entry point rebuilds the memoised display widget for "
     "the size it was asked about before delegating to it."
+    ' Added after seed round 3: (9) ACCUM - the row offsets of Pile.move_cursor_to_coords / mouse_event and ListBox.mouse_event advance for every item passed; (10) Edit.move_cursor_to_coords compares the requested row only with rows derived from the layout (position_coords / get_line_translation).'
 )
 NOT_DECIDED = (
     "Agreement with the rendered canvas cursor (needs canvas semantics), loops of Pile/Columns/ListBox that accumulate offsets (equivalence of different loop shapes is not syntactic), "
